@@ -300,3 +300,5 @@ INFO = dict(
     outside=["IEEE rounding for the solver-decided part (floats are reals; Log scores are exact logarithms); one concrete float guard `float_extremes` on extreme scores is included and labelled as such", "MaxTimes outside scores >= 0", "quick tier: Log triples use the shared zero/one objects and three symbolic values (fresh equal values take part in unary and binary laws only)"],
     assumptions=["scores are reals", "star argument inside the convergence domain"],
 )
+
+INFO["technique"] = "symbolic execution of the shipped semiring classes' operators on z3 real scores (exact log-domain model for Log); z3 proves every law instance over a pool of 7 values per type (+1 concrete float guard)"
